@@ -217,11 +217,13 @@ pub struct ROpts {
     pub max_outputs: usize,
     /// `reference` blocks pointing at store UTxOs (also at ones an input block will take)
     pub allow_reference_blocks: bool,
+    /// input blocks whose names differ in case only (the IR spells every name in lower case)
+    pub allow_names_differing_in_case: bool,
 }
 
 impl Default for ROpts {
     fn default() -> Self {
-        ROpts { max_inputs: 3, allow_min_utxo: true, allow_tokens: true, allow_refs: true, allow_collateral: true, tight_store: false, max_outputs: 3, allow_reference_blocks: false }
+        ROpts { max_inputs: 3, allow_min_utxo: true, allow_tokens: true, allow_refs: true, allow_collateral: true, tight_store: false, max_outputs: 3, allow_reference_blocks: false, allow_names_differing_in_case: false }
     }
 }
 
@@ -254,7 +256,13 @@ pub fn generate(t: &mut Tape, o: &ROpts) -> Scenario {
     }
     outs.push(ROut { name: if t.flag() { Some("rest".into()) } else { None }, party: 0, terms: vec![], change: true, optional: false });
     // blocks are served in name order: names on both sides of `collateral`
-    let in_names = if t.chance(1, 3) { ["anchor", "source", "gas", "Pool"] } else { ["source", "gas", "Pool", "extra_in"] };
+    let in_names = if o.allow_names_differing_in_case && n_in >= 2 && t.chance(1, 10) {
+        ["source", "Source", "gas", "GAS"]
+    } else if t.chance(1, 3) {
+        ["anchor", "source", "gas", "Pool"]
+    } else {
+        ["source", "gas", "Pool", "extra_in"]
+    };
     let mut ins = vec![];
     for i in 0..n_in {
         let mut min = vec![];
